@@ -30,11 +30,26 @@ class Counter:
         if event == "call" and frame.f_code.co_filename.endswith("rfb.py"):
             self.n += 1
             if self.n > self.limit:
+                # keeps raising at every further call: a bare `except:` on the way (Twisted's Deferred) cannot stop it
                 raise Spin()
+
+
+def arm_waiter(c, trace):
+    """an application waiting for updates (as capture/expect do): its Deferred fires at every commitUpdate and it waits again"""
+    from twisted.internet.defer import Deferred
+
+    def fired(cl):
+        trace.append(("cb", "fired"))
+        arm_waiter(c, trace)
+        return cl
+    c.deferred = Deferred()
+    c.deferred.addCallback(fired)
 
 
 def run_budgeted(kind, opts, chunks):
     c, trace, zlog = new_client(kind, **opts)
+    if kind != "base":
+        arm_waiter(c, trace)
     cnt = Counter()
     per = []
     total = 0
@@ -215,7 +230,7 @@ def run(ctx):
     if mout is not None:
         for off, nz, nch, flat, kind, opts, stream, chunks in meta:
             mper = parse_model(mout[off:], nz, nch)
-            a = until_close(flat)
+            a = [t for t in until_close(flat) if t != "fired"]        # the harness' own waiter is not in the model
             b = until_close([t for p in mper for t in p])
             if "diverged" in b:
                 ctx.disagree("model-diverged", {"input": {"stream": hx(stream)}})
